@@ -200,6 +200,29 @@ m('A42-buffer-released-with-len-as-capacity', [(VE, """        unsafe {
             let rebuilt = Vec::from_raw_parts(vec.as_mut_ptr(), 0, self.vec_len);
             drop(rebuilt);
         }""")], ['C15', 'C17'], 'the buffer is released with the length as its capacity: identical for vectors without spare capacity, undefined behaviour (deallocation with a foreign layout) otherwise; seen by the allocation ledger, which compares release size with allocation size')
+m('A43-nth-override-wrong-after-next', [('src/iter/implementors/taken.rs', """    #[inline]
+    fn size_hint(&self) -> (usize, Option<usize>) {
+        let len = self.len - self.idx;
+        (len, Some(len))
+    }
+}""", """    #[inline]
+    fn size_hint(&self) -> (usize, Option<usize>) {
+        let len = self.len - self.idx;
+        (len, Some(len))
+    }
+
+    fn nth(&mut self, n: usize) -> Option<Self::Item> {
+        // skip n elements at once
+        let skip = n.min(self.len - self.idx);
+        // SAFETY: positions idx..idx+skip have not been read
+        unsafe {
+            let first = self.ptr.add(self.idx);
+            ptr::drop_in_place(ptr::slice_from_raw_parts_mut(first, skip));
+        }
+        self.idx = skip;
+        self.next()
+    }
+}""")], ['C03', 'C08'], '`self.idx = skip` instead of `+= skip`: exact while nth is the first call on the chunk, re-yields (and double-drops) elements when some were taken with next() before')
 # variants that must stay quiet (Appendix B)
 m('B01-all-seqcst', [(AC, 'Ordering::AcqRel)', 'Ordering::SeqCst)'), (AC, 'Ordering::AcqRel)', 'Ordering::SeqCst)'), (AC, 'Ordering::Acquire)', 'Ordering::SeqCst)'),
                      (IT, 'self.completed.load(atomic::Ordering::Relaxed)', 'self.completed.load(atomic::Ordering::SeqCst)')], [], 'quiet')
